@@ -431,9 +431,13 @@ def rho_block_D_inv_A(A, Dinv):
     >>> Dinv = get_block_diag(A, blocksize=4, inv_flag=True)
 
     """
-    if not hasattr(A, 'rho_block_D_inv'):
+    # the estimate depends on the block size: cache one value per block size
+    if not hasattr(A, 'rho_block_D_inv_cache'):
+        A.rho_block_D_inv_cache = {}
 
-        blocksize = Dinv.shape[1]
+    blocksize = Dinv.shape[1]
+    if blocksize not in A.rho_block_D_inv_cache:
+
         if Dinv.shape[1] != Dinv.shape[2]:
             raise ValueError('Dinv has incorrect dimensions')
 
@@ -450,8 +454,9 @@ def rho_block_D_inv_A(A, Dinv):
             return Dinv @ (A @ x)
         D_inv_A = LinearOperator(A.shape, matvec, dtype=A.dtype)
 
-        A.rho_block_D_inv = approximate_spectral_radius(D_inv_A)
+        A.rho_block_D_inv_cache[blocksize] = approximate_spectral_radius(D_inv_A)
 
+    A.rho_block_D_inv = A.rho_block_D_inv_cache[blocksize]
     return A.rho_block_D_inv
 
 
